@@ -8,7 +8,13 @@ import (
 )
 
 // NotApplicable lists the properties (or none) that are not claimed at all.
-var NotApplicable = map[string]string{}
+var NotApplicable = map[string]string{
+	"C11": "not claimed yet: the Append/Parse round trip needs symbolic strconv digit tables and byte-level parsing of symbolic strings; harness under construction (see DESIGN.md section 7)",
+	"C12": "not claimed yet: the parser's character-class forking over fully symbolic strings is being built (see DESIGN.md section 7)",
+	"C13": "not claimed yet: layout reference for %e/%f/%g under construction (see DESIGN.md section 7)",
+	"C15": "not claimed: SetFloat/Float/Float32/Float64 compute inside math/big.Float, whose numeric code is not encoded, and SetFloat64's scaling by a 2**n Decimal needs pow2's precision-limited products; symbolic float64 arithmetic is outside the solvers' reach here (DESIGN.md sections 3 and 7)",
+	"C18": "not claimed yet: the write-confinement / pool-discipline mode of the executor (DESIGN.md 5, C18) is under construction; schedules are not enumerable by this technique",
+}
 
 const defaultTechnique = "bounded symbolic execution of go/ssa (own executor gosym: concrete shapes, symbolic scalars) + SMT (z3, Int encoding with explicit wrap-around); counterexamples replayed natively on both builds"
 
@@ -39,7 +45,7 @@ func ManifestMain(args []string) int {
 		"hooks": map[string]interface{}{
 			"guard":            "verif",
 			"enable":           "harness files (build tag verif) are injected in-package through go/packages Overlay (symbolic run) and go test -overlay (native replay); nothing is written into /repo",
-			"baseline_off_cmd": "cd /repo && go test -vet=off -count=1 -timeout 25m ./...",
+			"baseline_off_cmd": "cd /repo && go test -json -vet=off -count=1 -timeout 25m ./...",
 			"source_commits":   []string{},
 			"add_only":         true,
 		},
